@@ -8,7 +8,7 @@ OkLine(r) ==
   /\ r.sender_err = ~HS!PskInputsOk(r.mode, r.pskp)                 \* RFC 9180 section 5.1 VerifyPSKInputs
   /\ ~r.sender_err =>
        /\ r.keys_eq /\ r.enc_eq /\ r.key_eq /\ r.nonce_eq /\ r.exp_eq /\ r.ct_eq /\ r.exports_eq
-       /\ (r.dev = "none" => r.recv_ok /\ r.opens /\ r.rexport_eq)
+       /\ (r.dev = "none" => r.recv_ok /\ r.opens /\ r.rexport_eq /\ r.opens_all)
        /\ (r.dev # "none" => ~r.opens /\ (r.recv_ok => ~r.rexport_eq))
 INSTANCE LinesTrace WITH Ok <- OkLine
 ASSUME TLCSet(1, 0) /\ TLCSet(2, {})
